@@ -100,9 +100,12 @@ def cur(pg):
 class WritePoint:
     """Runs `action` at the k-th write-like event of one save (a stand-in for the poll thread running concurrently)."""
 
-    def __init__(self, k, action):
+    def __init__(self, k, action, second=None):
         self.k = k
         self.action = action
+        self.second = second      # runs once more if the SAME tick starts writing a new file (an immediate retry)
+        self.opens = 0
+        self.opens_at_fire = None
         self.n = 0
         self.fired = False
         self.active = False
@@ -112,7 +115,16 @@ class WritePoint:
             return
         i = self.n
         self.n += 1
+        if self.fired and self.second is not None and self.opens > self.opens_at_fire:
+            second, self.second = self.second, None
+            self.active = False
+            try:
+                second()
+            finally:
+                self.active = True
+            return
         if i == self.k and not self.fired:
+            self.opens_at_fire = self.opens
             self.fired = True
             self.active = False    # the concurrent message itself must not re-enter
             try:
@@ -147,7 +159,10 @@ def install_write_points(wp):
 
     def vopen(path, mode="r", *a, **k):
         real = builtins.open(path, mode, *a, **k)
-        return F(real) if any(ch in mode for ch in "wa") else real
+        if any(ch in mode for ch in "wa"):
+            wp.opens += 1
+            return F(real)
+        return real
 
     orig_gs = Sensor.__getstate__
 
@@ -374,7 +389,9 @@ def run_concurrent(job, res):
                     "desc": f"a concurrent message ({mut}) at write point {k}/{npoints} of the scheduled {ext} save"}
 
             def fault(pg, k=k):
-                wp = WritePoint(k, lambda: pg.eng.feed(line))
+                # a burst: should the same tick start over (an immediate retry), another message lands in that attempt too
+                burst = (lambda: pg.eng.feed("51;255;0;0;17;2.2")) if k % 3 == 0 else None
+                wp = WritePoint(k, lambda: pg.eng.feed(line), burst)
                 undo = install_write_points(wp)
                 wp.active = True
                 n0 = len(SAVE_EXC)
